@@ -79,10 +79,65 @@ def run_logger(binary, workdir, data, chunks, pause_ms, slow_disk=None):
     return rc, bytes(out), rec
 
 
+def run_logger_live(binary, workdir, bursts, wait_s=4.0):
+    """A live stream: stdin stays open and idle after each burst; what has been fed must come out of stdout while
+    the input is silent (a pass-through that holds data back until more input or end of input arrives withholds
+    it for as long as the source is quiet).  Returns (rc, [(fed so far, delivered when the wait ended)], out, rec, data)."""
+    import threading
+    shutil.rmtree(workdir, ignore_errors=True)
+    os.makedirs(workdir)
+    cfg = os.path.join(workdir, "cfg.json")
+    with open(cfg, "w") as f:
+        json.dump({"log_events": False, "message_log_directory": workdir, "event_log_directory": workdir}, f)
+    p = subprocess.Popen([binary, "-c", cfg], stdin=subprocess.PIPE, stdout=subprocess.PIPE, stderr=subprocess.PIPE, cwd=workdir)
+    out = bytearray()
+    lock = threading.Lock()
+
+    def reader():
+        while True:
+            b = p.stdout.read1(65536)
+            if not b:
+                break
+            with lock:
+                out.extend(b)
+    t = threading.Thread(target=reader)
+    t.start()
+    fed, seen = 0, []
+    data = b"".join(bursts)
+    try:
+        for b in bursts:
+            p.stdin.write(b)
+            p.stdin.flush()
+            fed += len(b)
+            deadline = time.time() + wait_s
+            while time.time() < deadline:
+                with lock:
+                    n = len(out)
+                if n >= fed:
+                    break
+                time.sleep(0.02)
+            with lock:
+                seen.append((fed, len(out)))
+        p.stdin.close()
+    except BrokenPipeError:
+        pass
+    try:
+        rc = p.wait(timeout=60)
+    except subprocess.TimeoutExpired:
+        p.kill()
+        rc = -9
+    t.join(timeout=10)
+    rec = b""
+    for fn in sorted(glob.glob(os.path.join(workdir, "rtcmlogger.*.rtcm"))):
+        rec += open(fn, "rb").read()
+    shutil.rmtree(workdir, ignore_errors=True)
+    return rc, seen, bytes(out), rec, data
+
+
 def run(res, args):
     res.rule = ("the built rtcmlogger binary: stdin fed through a pipe (empty, 1 B, 8095, 8096, 8097, 20 000, 100 000 random bytes, "
                 "RTCM streams) with chunk sizes 1..65536 and pauses 0/1/5 ms, stdout captured, the day's record file read after the "
-                "process has exited; every case repeated to sample the exit race; plus the repository's start() in-process (go test "
+                "process has exited; every case repeated to sample the exit race; live streams (bursts, also of exact multiples of the 8096-byte block, with the input open and idle in between: what was fed must have come out within 4 s of silence); plus the repository's start() in-process (go test "
                 "-overlay; newLogWriter replaced) built with -race, with inputs up to 1.5 MB, a record writer that stalls, and input that keeps arriving for more than two seconds (a slow disk: the "
                 "recorder blocks in Write while the copy loop runs ahead); "
                 "non-trivial = at least 2 blocks of input")
@@ -138,6 +193,32 @@ def run(res, args):
             res.nontrivial.add((tag, tuple(chunks), pause, res.evaluations))
         if res.evaluations % 12 == 1:
             res.sample(dict(case, stdout_bytes=len(out), record_bytes=len(rec)))
+    # live streams: bursts with the input idle (and open) in between
+    live = []
+    for k in range(6 if res.tier == "quick" else 40):
+        sizes_l = [rng.choice([1, 100, 4048, 8095, 8096, 8097, 16192, 24288, 20000, 64768, 65536]) for _ in range(rng.randint(1, 3))]
+        if k < 3:
+            sizes_l = [[8096], [16192, 100], [300, 8096 * 3]][k]
+        live.append([gen.rand_bytes(rng, n) for n in sizes_l])
+    with ThreadPoolExecutor(max_workers=6) as ex:
+        live_results = list(ex.map(lambda ib: run_logger_live(binary, os.path.join(wd, "live%d" % ib[0]), ib[1]), enumerate(live)))
+    for bursts, (rc, seen, out, rec, data) in zip(live, live_results):
+        res.evaluations += 1
+        res.count("live stream: bursts with idle, open input in between")
+        case = dict(bursts=[len(b) for b in bursts], kind="live", input_sha=__import__("hashlib").sha256(data).hexdigest()[:16])
+        if rc != 0:
+            res.add_violation(dict(case, exit=rc), "rtcmlogger did not exit normally")
+            continue
+        short = [(f, d) for f, d in seen if d < f]
+        if short:
+            res.add_violation(dict(case, fed_and_delivered_after_4s_of_silence=short),
+                              "input already received was not passed to standard output while the input was idle (pass-through withheld)")
+        if out != data:
+            res.add_violation(dict(case, stdout_bytes=len(out)), "standard output differs from standard input")
+        if rec != data:
+            res.add_violation(dict(case, record_bytes=len(rec)), "the record file is not a complete copy of the input after the program has ended")
+        if len(data) > 8096:
+            res.nontrivial.add(("live", tuple(len(b) for b in bursts)))
     # the same program in-process with a record writer that stalls (a slow disk): the recorder goroutine blocks in
     # Write while the copy loop runs ahead; os.Stdin/os.Stdout are pipes; start() is the repository's
     okt, outt, tbin = common.build_app_test("rtcmlogger", rewrite=("main.go", "func newLogWriter(", "func newLogWriterRepo("), race=True)
